@@ -47,6 +47,15 @@ def obligations(tier):
                   "(d) alarm(DEATH<OSSIFIED) before any file exists",
             expect_witnesses=["queued", "exit91_bad_letter", "exit54_eof", "exit53_write_error", "exit65", "exit66",
                               "queued_with_recipient"], **common),
+        Obl("queue_alarm", "queue.c", defines={"MODE": 4, "OSSIFIED_SEND": oss}, std_checks=False,
+            grid=[{"E": 5, "B": 1}],
+            unwind=lambda p: {"queue_main": p["E"] + 3, "pidopen": 11, "substdio_copy": p["B"] + 3,
+                              "ref_envelope": p["E"] + 3, "is_path": 17},
+            unwind_default=24, timeout=900, flags=["--slice-formula"],
+            assumes=["no injected failures; SIGALRM delivered just before any one system call (symbolic position); envelope <= 5 bytes"],
+            claim="whenever the 24 h alarm fires, the run exits 52 and the durable-state invariant holds: a message that already has its todo entry is left "
+                  "untouched, one that has not is left as a collectible leftover",
+            expect_witnesses=["queued", "alarm_after_commit", "alarm_before_commit"], **common),
         Obl("queue_content", "queue.c", defines={"MODE": 1, "OSSIFIED_SEND": oss},
             grid=[{"E": 5, "B": 3}] if tier == "quick" else [{"E": 5, "B": 3}, {"E": 7, "B": 4}],
             unwind=lambda p: {"queue_main": p["E"] + 3, "pidopen": 11, "substdio_copy": p["B"] + 3,
